@@ -370,8 +370,6 @@ def sample_documents(docs, cap, rng):
     out = []
     for fam in FAMILIES:
         mine = [p for p in docs if p["fam"] == fam]
-        if fam == "comp":
-            cap = max(cap, 400)
         if len(mine) <= cap:
             out += mine
             continue
@@ -381,10 +379,11 @@ def sample_documents(docs, cap, rng):
         for v in classes.values():
             rng.shuffle(v)
         keys = sorted(classes)
+        n = max(cap, len(keys)) if fam == "comp" else cap  # comp: at least one document of every combination
         picked = []
-        while len(picked) < cap:
+        while len(picked) < n:
             for k in keys:
-                if classes[k] and len(picked) < cap:
+                if classes[k] and len(picked) < n:
                     picked.append(classes[k].pop())
         out += picked
     return out
